@@ -18,6 +18,10 @@ struct Case {
     ranges: Vec<(u64, u64)>,
     /// BMFF offset markers (distinct positions), built as real callers do: HashRange::new(p,1)+set_bmff_offset(p)
     markers: Vec<u64>,
+    /// `start` fields of the marker ranges (None: start == offset, the way the SDK's BMFF code builds them). A marker
+    /// contributes at its *offset*; its start only takes part in sorting and bounds checking.
+    #[serde(default)]
+    marker_starts: Option<Vec<u64>>,
     exclusion: bool,
     /// 0 sha256, 1 sha384, 2 sha512
     alg: u8,
@@ -42,12 +46,16 @@ fn sha(alg: u8, bytes: &[u8]) -> Vec<u8> {
 
 fn sdk_ranges(c: &Case) -> Vec<HashRange> {
     let mut v: Vec<HashRange> = c.ranges.iter().map(|(s, l)| HashRange::new(*s, *l)).collect();
-    for m in &c.markers {
-        let mut h = HashRange::new(*m, 1);
+    for (i, m) in c.markers.iter().enumerate() {
+        let mut h = HashRange::new(marker_start(c, i), 1);
         h.set_bmff_offset(*m);
         v.push(h);
     }
     v
+}
+
+fn marker_start(c: &Case, i: usize) -> u64 {
+    c.marker_starts.as_ref().and_then(|v| v.get(i).copied()).unwrap_or(c.markers[i])
 }
 
 #[derive(Debug, Clone, PartialEq)]
@@ -85,7 +93,7 @@ fn model(c: &Case) -> Model {
         }
     }
     let mut all: Vec<(u64, u64, bool)> = c.ranges.iter().map(|(s, l)| (*s, *l, false)).collect();
-    all.extend(c.markers.iter().map(|m| (*m, 1u64, true)));
+    all.extend((0..c.markers.len()).map(|i| (marker_start(c, i), 1u64, true)));
     // "reaches past the end": non-empty range whose end is beyond the data (or overflows)
     let past = |s: u64, l: u64| match s.checked_add(l) {
         None => true,
@@ -263,7 +271,7 @@ fn main() {
     vh::quiet_panics();
     let run = Run::from_args("C13", "exploration");
     run.set_rule("case = (data bytes, ranges (start,len), distinct BMFF marker offsets built as HashRange::new(p,1)+set_bmff_offset(p), exclusion|inclusion, alg, internal chunk sizes); exhaustive part: data lengths 0..6 x every multiset of <=2 ranges on the 3-bit grid (start,len in 0..7) x both modes (+ every single marker position in exclusion mode); random part: data 0..4096 bytes, 0..6 ranges with starts/lengths biased to {0, small, len-1, len, len+1, u64::MAX-k}, 0..3 markers. Every case is hashed with each listed chunk size (1,2,3,7,64,4096) and through the public entry; non-trivial = >=2 ranges that overlap or touch, or a marker, or a range ending exactly at the data length.");
-    run.assume("markers are generated only in exclusion mode and at distinct positions, as the SDK's BMFF callers build them; a marker inside an excluded region may or may not contribute (both digests accepted)");
+    run.assume("markers are generated only in exclusion mode and at distinct offsets; three cases in four build them as the SDK's BMFF callers do (start == offset), one in four gives the marker range a different start inside the data (the marker still contributes at its offset); a marker inside an excluded region may or may not contribute (both digests accepted)");
     run.assume("inclusion mode: digest in sorted-by-start order or in given order are both accepted when they differ");
     run.assume("zero-length data: the documented 'no data to hash' error or the empty digest are both accepted; zero-length ranges beyond the end: error or ignoring them are both accepted");
     run.assume("thread schedules of the hashing pipeline are not controlled; small chunk sizes multiply the hand-off points (stress only)");
@@ -276,19 +284,19 @@ fn main() {
         let data: Vec<u8> = (0..len).map(|i| (i as u8).wrapping_mul(37).wrapping_add(11)).collect();
         for excl in [true, false] {
             // 0 ranges
-            cases.push(Case { data: data.clone(), ranges: vec![], markers: vec![], exclusion: excl, alg: 0, chunks: vec![1, 3] });
+            cases.push(Case { data: data.clone(), ranges: vec![], markers: vec![], marker_starts: None, exclusion: excl, alg: 0, chunks: vec![1, 3] });
             for (i, r1) in grid.iter().enumerate() {
-                cases.push(Case { data: data.clone(), ranges: vec![*r1], markers: vec![], exclusion: excl, alg: 0, chunks: vec![1, 3] });
+                cases.push(Case { data: data.clone(), ranges: vec![*r1], markers: vec![], marker_starts: None, exclusion: excl, alg: 0, chunks: vec![1, 3] });
                 if excl {
                     for m in 0..len as u64 {
-                        cases.push(Case { data: data.clone(), ranges: vec![*r1], markers: vec![m], exclusion: true, alg: 0, chunks: vec![1, 4096] });
+                        cases.push(Case { data: data.clone(), ranges: vec![*r1], markers: vec![m], marker_starts: None, exclusion: true, alg: 0, chunks: vec![1, 4096] });
                     }
                 }
                 for r2 in grid.iter().skip(i) {
-                    cases.push(Case { data: data.clone(), ranges: vec![*r1, *r2], markers: vec![], exclusion: excl, alg: (len % 3) as u8, chunks: vec![2] });
+                    cases.push(Case { data: data.clone(), ranges: vec![*r1, *r2], markers: vec![], marker_starts: None, exclusion: excl, alg: (len % 3) as u8, chunks: vec![2] });
                     if r1 != r2 && !excl {
                         // inclusion: given order matters
-                        cases.push(Case { data: data.clone(), ranges: vec![*r2, *r1], markers: vec![], exclusion: false, alg: 0, chunks: vec![2] });
+                        cases.push(Case { data: data.clone(), ranges: vec![*r2, *r1], markers: vec![], marker_starts: None, exclusion: false, alg: 0, chunks: vec![2] });
                     }
                 }
             }
@@ -337,7 +345,14 @@ fn main() {
         // chunk size 1 on 4 KB would mean 4096 worker hand-offs per hash: bound hand-offs to ~200 per run
         let mut chunks: Vec<usize> = [1usize, 2, 3, 7].iter().copied().filter(|c| len / c <= 48).collect();
         chunks.extend([64, 4096]);
-        Case { data, ranges, markers: markers.into_iter().collect(), exclusion: excl, alg, chunks }
+        let markers: Vec<u64> = markers.into_iter().collect();
+        // one case in four: marker ranges whose start differs from their offset (still inside the data)
+        let marker_starts = if !markers.is_empty() && (dseed >> 20) & 3 == 0 {
+            Some(markers.iter().enumerate().map(|(i, m)| (m.wrapping_mul(7).wrapping_add(dseed >> (8 + i))) % l.max(1)).collect())
+        } else {
+            None
+        };
+        Case { data, ranges, markers, marker_starts, exclusion: excl, alg, chunks }
     });
     run.drive_par("random_ranges", run.scale(8_000, 600_000), 16, strat, |c| judge(&run, c));
     run.finish();
